@@ -113,6 +113,7 @@ type frame struct {
 	panic            interface{}
 	phitemps         []value // temporaries for parallel phi assignment
 	pos              token.Pos
+	sink             *sinkInfo
 	loopCount        map[*ssa.BasicBlock]int
 }
 
@@ -216,6 +217,11 @@ func visitInstr(fr *frame, instr ssa.Instruction) continuation {
 		// no-op
 
 	case *ssa.UnOp:
+		if fr.sink != nil {
+			if _, postponed := fr.sink.after[instr]; postponed {
+				break // executed right after the call it is postponed behind (see evalorder.go)
+			}
+		}
 		fr.env[instr] = i.unop(fr, instr, fr.get(instr.X))
 
 	case *ssa.BinOp:
@@ -224,6 +230,11 @@ func visitInstr(fr *frame, instr ssa.Instruction) continuation {
 	case *ssa.Call:
 		fn, args := prepareCall(fr, &instr.Call)
 		fr.env[instr] = call(fr.i, fr, instr.Pos(), fn, args)
+		if fr.sink != nil {
+			for _, ld := range fr.sink.calls[instr] {
+				fr.env[ld] = i.unop(fr, ld, fr.get(ld.X))
+			}
+		}
 
 	case *ssa.ChangeInterface:
 		fr.env[instr] = fr.get(instr.X)
@@ -532,7 +543,7 @@ func (i *interpreter) makeLen(x value, what string) int64 {
 		}
 		if i.allocBudget >= 0 {
 			if i.branch(c.Ult(c.BVU(uint64(i.allocBudget), w), s.T)) {
-				i.violation("assert", "allocation exceeds budget ("+what+")", fmt.Sprintf("budget %d elements", i.allocBudget), nil)
+				i.violation("alloc", "allocation exceeds budget", fmt.Sprintf("%s, budget %d elements", what, i.allocBudget), nil)
 				i.abort(OutViolation, "allocation exceeds budget")
 			}
 		} else {
@@ -548,7 +559,7 @@ func (i *interpreter) makeLen(x value, what string) int64 {
 
 func (i *interpreter) chargeAlloc(n int64, elem types.Type) {
 	if i.allocBudget >= 0 && n > i.allocBudget {
-		i.violation("assert", "allocation exceeds budget", fmt.Sprintf("%d elements, budget %d", n, i.allocBudget), nil)
+		i.violation("alloc", "allocation exceeds budget", fmt.Sprintf("%d elements, budget %d", n, i.allocBudget), nil)
 		i.abort(OutViolation, "allocation exceeds budget")
 	}
 	if n > 1<<24 {
@@ -654,6 +665,9 @@ func callSSA(i *interpreter, caller *frame, callpos token.Pos, fn *ssa.Function,
 	}
 
 	fr.env = make(map[ssa.Value]value)
+	if si := sinkFor(fn); len(si.after) > 0 {
+		fr.sink = si
+	}
 	fr.block = fn.Blocks[0]
 	fr.locals = make([]value, len(fn.Locals))
 	for i, l := range fn.Locals {
